@@ -493,6 +493,32 @@ theorem preflight_is_per_graph {D : Type} [DecidableEq D] (E : LoadEnv D IdRec (
         exact ⟨inNodes _ this.1, inNodes _ this.2⟩
       · exact ih h g e f hf a b hab
 
+/-- `preflight_ids_unique`: if the preflight accepts, the source ids of the node records of every graph are
+pairwise distinct (a node id repeated anywhere in the node fragments of ONE graph — same fragment or another —
+is refused before any write); two graphs may use the same ids. Same hypotheses as `preflight_is_per_graph`. -/
+theorem preflight_ids_unique {D : Type} [DecidableEq D] (E : LoadEnv D IdRec (List Str))
+    (hinit : E.init = []) (hcheck : E.check = idCheck) (codec : Nat) (dir : Dir) :
+    ∀ (gs : List (GraphM D)), verifyGraphs E codec dir gs = true → ∀ g ∈ gs, (graphNodeIds E codec dir g).Nodup := by
+  intro gs
+  induction gs with
+  | nil => intro _ g hg; cases hg
+  | cons x gs ih =>
+    intro h g hg
+    unfold verifyGraphs at h
+    split at h
+    · cases h
+    · rename_i s1 h1
+      rcases List.mem_cons.mp hg with e | e
+      · subst e
+        obtain ⟨heq, hnd⟩ := verifyFrags_ids_eq E hcheck codec dir g.files E.init s1 h1
+        have := hnd (by rw [hinit]; exact List.nodup_nil)
+        rw [heq, hinit, List.append_nil] at this
+        unfold graphNodeIds
+        unfold List.Nodup at this ⊢
+        rw [List.pairwise_reverse] at this
+        exact this.imp (fun h e => h e.symm)
+      · exact ih h g e
+
 /-- `extracted_collection_verified`: if `validateExtractedCollection` accepts (and the manifest validates, which
 `readManifest` checks first), then for EVERY file entry of the manifest the extraction really tracked a file
 under the manifest's own spelling of the path (no zero-value default, no skipped entry) and its compressed
@@ -894,6 +920,16 @@ example : (load idEnv (twoGraphs 34) [(['a'], [1, 2]), (['b'], [12]), (['c'], [3
 -- re-hashed tampering: h's edge 3 -> 1, node `4:1` exists in g only: refused by the preflight, no batch
 example : (load idEnv (twoGraphs 31) [(['a'], [1, 2]), (['b'], [12]), (['c'], [3, 4]), (['d'], [31])]).err = some .verify ∧
     ((load idEnv (twoGraphs 31) [(['a'], [1, 2]), (['b'], [12]), (['c'], [3, 4]), (['d'], [31])]).trace.filter Ev.isBatch).length = 0 := by decide
+
+-- a node id repeated inside graph `h` (re-hashed): refused, no batch; the same id in `g` and `h` is fine
+def dupGraphs (nodesOfH : List Nat) : Man Bytes :=
+  { codec := 1, graphCount := 2, schemaFor := [['g'], ['h']],
+    graphs := [{ name := ['g'], nodeCount := 2, edgeCount := 0,
+                 files := [{ path := ['a'], phase := .nodes, count := 2, cbytes := 2, sha := [1, 2] }] },
+               { name := ['h'], nodeCount := 2, edgeCount := 0,
+                 files := [{ path := ['c'], phase := .nodes, count := 2, cbytes := 2, sha := nodesOfH }] }] }
+example : (load idEnv (dupGraphs [1, 2]) [(['a'], [1, 2]), (['c'], [1, 2])]).err = none := by decide
+example : (load idEnv (dupGraphs [3, 3]) [(['a'], [1, 2]), (['c'], [3, 3])]).err = some .verify := by decide
 
 -- validateExtractedCollection: canonical spelling accepted, `./n` (same tar entry `n`) refused although the bytes match
 def oneFile (path : Str) : Man Bytes :=
